@@ -199,7 +199,7 @@ def run(rep, repo, tier):
         'ownership (the block stored in m_data really has the recorded capacity) are re-established by every '
         'constructor and method, every element read/write/construct/destroy/assign lies inside the allocation, size '
         'bookkeeping equals the definition (push +1, pop -1, resize n, erase range, ...). Equality of the element '
-        'sequence with std::vector and the exactly-once lifetime discipline are not decided by this check.')
+        'sequence with std::vector is not decided by this check.')
     rep.assumptions += ['iterator arguments point into the vector with positions <= size (insert/erase/emplace)',
                         'sizes up to 2^26 elements', 'operator new does not return null']
     mod = compile_ir(os.path.join(WIT, 'w_vector.cpp'), repo, exceptions=True)
@@ -221,3 +221,5 @@ def run(rep, repo, tier):
     rep.floor('R-VEC:ownership', 60)
     rep.floor('R-VEC:bounds', 40)
     rep.floor('R-VEC:post', 30)
+    import c02_life
+    c02_life.run_life(rep, repo, tier)
